@@ -24,7 +24,7 @@ from functools import lru_cache, singledispatchmethod
 from typing import Callable, Concatenate, ParamSpec, TypeVar
 
 import sympy
-from sympy import Expr, N, Order, Symbol, symbols
+from sympy import Expr, N, Order, Symbol, floor, log, symbols
 from sympy.core.function import AppliedUndef
 from sympy.core.traversal import iterargs
 from typing_extensions import TypeAlias
@@ -117,7 +117,12 @@ def _sympify_function(func_name: str, func: Callable) -> type[sympy.Function]:
 def _value_of(expr: Expr) -> Number | None:
     """Compute a numerical value of an expression, return None if it's not possible."""
     try:
-        value = N(expr).round(n=NUM_DIGITS_PRECISION)
+        value = N(expr)
+        num_decimals = NUM_DIGITS_PRECISION
+        if value.is_Float and 0 < abs(value) < 1:
+            # Keep NUM_DIGITS_PRECISION significant digits (not decimal places) for small magnitudes.
+            num_decimals = NUM_DIGITS_PRECISION - (int(floor(log(abs(value), 10))) + 1)
+        value = value.round(n=num_decimals)
     except TypeError:
         # Raised for symbolic expressions ("Cannot round symbolic expression"), but also e.g. when
         # numerical evaluation of a Sum/Product with symbolic limits has to decide a symbolic relation.
